@@ -1,0 +1,35 @@
+//go:build verif
+
+package desync
+
+import "context"
+
+// VerifPool, when set by the verification harness, is called at the instrumented
+// sites of the functions built as "feeder + N workers + errgroup" (VerifyIndex,
+// ChopFile, Copy, ChunkStream, Plan.Validate) with the function's name, the event
+// and, where known, the index of the worker goroutine (-1 for the feeder) and a job
+// value (-1 if none). Events of the feeder: "select" (about to select between
+// ctx.Done() and the send of the next job), "sent" (the send completed), "break"
+// (the ctx.Done() arm was taken), "close" (the loop is over, about to close the
+// channel), "wait" (about to wait for the group). Events of a worker: "start" (about
+// to receive for the first time), "recv" (received a job), "ok" (finished its job,
+// about to receive again), "fail" (its job failed, about to return the error), "exit"
+// (the channel is closed and drained, about to return nil). The harness blocks inside
+// the hook to schedule the goroutines one at a time and records the event trace.
+var VerifPool func(fn string, ev string, worker, job int)
+
+func verifPool(fn string, ev string, worker, job int) {
+	if f := VerifPool; f != nil {
+		f(fn, ev, worker, job)
+	}
+}
+
+// VerifPoolCtx hands the harness the context derived by errgroup.WithContext, so that
+// it can wait until a failed worker's error has cancelled it.
+var VerifPoolCtx func(fn string, ctx context.Context)
+
+func verifPoolCtx(fn string, ctx context.Context) {
+	if f := VerifPoolCtx; f != nil {
+		f(fn, ctx)
+	}
+}
